@@ -66,6 +66,11 @@ CHECKS = {
             'Schedules here are hash seeds and process histories: every HashSet/HashMap instance inside mamba gets a fresh seed per run, so repetition explores iteration orders; the history test runs a program after a twin with the same class names but different relations (what a process-wide cache keyed by name would confuse) and compares with a process that never saw the twin. Workload biased to hash-ordered internals: interleaved class members, several parents, unions of 2-4 types incl. same-named generics, multi-member raise lists, multi-file projects, generated programs, repository samples.',
             'Probabilistic in the number of repetitions (quick: 8 sequential + 8 threads + 2-3 processes per flag; thorough: 40 + 16 + 3); differences in diagnostic text are reported but are not violations.',
             'DESIGN.md section 4, C12'),
+    'C13': ('fault_enumeration',
+            'runtime monitor on the real binary and library: strace write-set + directory snapshots, all permutations of the file list, unrelated-file addition, re-runs into populated output directories, one run per (file, fault kind)',
+            'Generated projects (1-5 files in nested directories, cross-file classes/functions/exceptions in both dependency directions and cycles). Per accepted project: every permutation of the file list through mamba_to_python (outputs compared as Python ASTs), the project plus an unrelated file, the real binary under strace -f -e trace=%file in three CLI layouts (write-set = exactly the mirrored .py files, nothing outside the output directory, nothing removed, content equal to the library output), a second run into the populated directory, a run after one file got shorter (must equal a fresh transpilation), and for each file and each fault kind (lexical, syntactic, type) one run with that single file faulty, into the populated and into a fresh directory: exit status non-zero, no Python written, previous output untouched, every diagnostic names exactly the faulty file.',
+            'strace sees all file-system effects; injected faults are file-local and verified to be faults (the faulty file alone is rejected at the parse stage); imports only for flat module names (dotted paths do not parse on this tree).',
+            'DESIGN.md section 4, C13'),
 }
 
 NOT_YET = 'monitor not built yet in this revision (construction order: DESIGN.md section 9); not claimed rather than claimed weakly'
